@@ -200,6 +200,8 @@ def build_cases(K, nprng, shapes_small, shapes_big, tier):
             n1 = max(1, N // 2)
             for dn, dt in DT:
                 x = moments_data(nprng, C, N)          # samples stay below 256
+                if dn == "f4":
+                    x = x - 20                         # float data of both signs: the mean moves, the central sums do not
                 add(name, name, dn, (C, N),
                     lambda x=x, C=C, dt=dt: (x.astype(dt).ravel(), np.zeros(C, dtype=K.moments_dtype)),
                     lambda f, a, n1=n1, C=C: _call_moments(f, a, n1, C),
@@ -711,7 +713,7 @@ def run(R: vlib.Run):
     R.rule = ("runtime sweep: every parallel kernel (both compiled signatures) x shapes from 1 channel x 1 sample to iterations >> threads x "
               "numba.set_num_threads(1..16) x set_parallel_chunksize{0,1,2,7} x repetitions, on integer data whose float32 arithmetic is exact "
               "(float32 data of both signs), output and every other array argument bit-compared with .py_func (NumPy restatement as an exactness cross-check); "
-              "shapes include 1 channel x 300 samples and 200 channels x 1 sample; kernels without a declared signature also on uint16; moments on "
+              "shapes include 1 channel x 300 samples, 300 channels x 1 sample and 200 channels x 1 sample for every kernel family; kernels without a declared signature also on uint16; moments on "
               "uint8/uint16/float32, plus counts 49, 98, 103, 107, 196 with the second central sum on a float32 rounding tie; Filterbank.subband call site on "
               "8/32-bit files with delays 0, 2, 3 and one channel, compiled call vs .py_func on the same arguments; decimation additionally on uint8/int32/float64 data with bin sizes "
               "49, 98, 103, 107, 196 (1-D) and 7x7, 7x14, 14x14, 1x103, 107x1, 49x2, 1x49 (2-D), exact integer means, parallel alias and serial twin against .py_func; ownership tracer on .py_func for the small shapes; a case is one compiled "
@@ -745,10 +747,11 @@ def run(R: vlib.Run):
 
     # ---------------- oracle 1: ownership on the Python definition -----------------------------
     small = [(1, 1), (1, 5), (4, 1), (3, 4), (5, 7)]
-    # iterations >> threads, also with the other axis degenerate (one channel x many samples, many channels x one sample)
-    big = {"samples": [(8, 300), (1, 300)] if quick else [(8, 300), (1, 300), (16, 1500)],
-           "chans": [(200, 6), (200, 1)] if quick else [(200, 6), (200, 1), (700, 4)]}
-    own_cases = build_cases(K, nprng, small, {"samples": [(6, 40), (1, 40)], "chans": [(40, 6), (40, 1)]}, R.tier)
+    # iterations >> threads, also with the other axis degenerate (many iterations of one element each), and the parallel axis
+    # degenerate with the other one long (ONE iteration over many elements: where a "parallelise the other axis" branch would live)
+    big = {"samples": [(8, 300), (1, 300), (300, 1)] if quick else [(8, 300), (1, 300), (300, 1), (16, 1500)],
+           "chans": [(200, 6), (200, 1), (1, 300)] if quick else [(200, 6), (200, 1), (1, 300), (700, 4)]}
+    own_cases = build_cases(K, nprng, small, {"samples": [(6, 40), (1, 40), (40, 1)], "chans": [(40, 6), (40, 1), (1, 40)]}, R.tier)
     covered = set()
     for cs in own_cases:
         if cs.dtype != "f4":
